@@ -204,6 +204,7 @@ func (d *DiskQueue) skipToNextRWFile() error {
 	for i := d.readFileNum; i <= d.writeFileNum; i++ {
 		fn := d.fileName(i)
 		innerErr := os.Remove(fn)
+		verifCrashPoint("seg.remove")
 		if innerErr != nil && !os.IsNotExist(innerErr) {
 			log.Printf("ERROR: diskqueue(%s) failed to remove data file - %s", d.name, innerErr.Error())
 			err = innerErr
@@ -330,6 +331,7 @@ func (d *DiskQueue) writeOne(data []byte) error {
 		d.writeFile = nil
 		return err
 	}
+	verifCrashPoint("seg.write")
 
 	totalBytes := int64(4 + dataLen)
 	d.writePos += totalBytes
@@ -338,6 +340,7 @@ func (d *DiskQueue) writeOne(data []byte) error {
 	if d.writePos > d.maxBytesPerFile {
 		d.writeFileNum++
 		d.writePos = 0
+		verifCrashPoint("rollover")
 
 		// sync every time we start writing to a new file
 		err = d.sync()
@@ -363,6 +366,7 @@ func (d *DiskQueue) sync() error {
 			d.writeFile = nil
 			return err
 		}
+		verifCrashPoint("seg.fsync")
 	}
 
 	err := d.persistMetaData()
@@ -425,6 +429,8 @@ func (d *DiskQueue) persistMetaData() error {
 	}
 	f.Sync()
 	f.Close()
+	verifCrashPoint("meta.tmp.write")
+	defer verifCrashPoint("meta.rename")
 
 	// atomically rename
 	return os.Rename(tmpFileName, fileName)
@@ -483,6 +489,7 @@ func (d *DiskQueue) moveForward() {
 
 		fn := d.fileName(oldReadFileNum)
 		err := os.Remove(fn)
+		verifCrashPoint("seg.remove")
 		if err != nil {
 			log.Printf("ERROR: failed to Remove(%s) - %s", fn, err.Error())
 		}
@@ -510,6 +517,7 @@ func (d *DiskQueue) handleReadError() {
 	log.Printf("NOTICE: diskqueue(%s) jump to next file and saving bad file as %s", d.name, badRenameFn)
 
 	err := os.Rename(badFn, badRenameFn)
+	verifCrashPoint("seg.bad.rename")
 	if err != nil {
 		log.Printf("ERROR: diskqueue(%s) failed to rename bad diskqueue file %s to %s", d.name, badFn, badRenameFn)
 	}
